@@ -1,7 +1,11 @@
 package c13
 
 import (
+	"encoding/json"
 	"fmt"
+	"sync"
+
+	ct "github.com/google/certificate-transparency-go"
 	"strings"
 	"testing"
 	"time"
@@ -43,6 +47,40 @@ func plain408(a Attempt, e Event, kind string) bool {
 	return kind == "retry" && !a.Timeout && e.Kind == "status" && e.Status == 408
 }
 
+var (
+	selfTest    sync.Once
+	selfTestErr string
+)
+
+// bodySelfTest pins the body classes against encoding/json (the parser that defines "a body that parses"
+// for this client): every good form must decode into ct.AddChainResponse with its marker, every bad one must not.
+func bodySelfTest() string {
+	for form := 0; form <= 4; form++ {
+		for _, size := range []int{0, 5000} {
+			var r ct.AddChainResponse
+			if err := json.Unmarshal([]byte(okBody(Event{Kind: "ok", BodyForm: form, BodySize: size}, 77)), &r); err != nil || r.Timestamp != 77 {
+				return fmt.Sprintf("good body form %d size %d does not parse: %v", form, size, err)
+			}
+			if b := okBody(Event{Kind: "ok", BodyForm: form, BodySize: size}, 77); size > 0 && len(b) != size {
+				return fmt.Sprintf("good body form %d: length %d, want %d", form, len(b), size)
+			}
+		}
+	}
+	for i, b := range badBodies {
+		var r ct.AddChainResponse
+		if json.Unmarshal([]byte(b), &r) == nil {
+			return fmt.Sprintf("bad body %d parses", i)
+		}
+	}
+	for cl := -7; cl <= -2; cl++ {
+		var r ct.AddChainResponse
+		if json.Unmarshal([]byte(badPrefixed(cl, 77)), &r) == nil {
+			return fmt.Sprintf("bad body class %d parses", cl)
+		}
+	}
+	return ""
+}
+
 func clip(s string) string {
 	if len(s) > 160 {
 		return s[:160] + "..."
@@ -54,8 +92,10 @@ func evLabel(e Event) string {
 	switch {
 	case e.Kind == "status":
 		return fmt.Sprint(e.Status)
-	case e.Kind == "bad" && e.BadBody < 0:
+	case e.Kind == "bad" && e.BadBody == -1:
 		return "bodyerr"
+	case e.Kind == "bad" && e.BadBody < -1:
+		return "bad-prefixed-json"
 	}
 	return e.Kind
 }
@@ -83,6 +123,14 @@ func check(t *testing.T, c Case) (v harness.Verdict) {
 
 func judge(c Case, out Outcome, v *harness.Verdict) {
 	single := len(c.Callers) == 1
+	selfTest.Do(func() { selfTestErr = bodySelfTest() })
+	if selfTestErr != "" {
+		v.Failf("harness-selftest", "%s", selfTestErr)
+		return
+	}
+	if c.LogDelayMs > 0 {
+		v.Class("slow-logger")
+	}
 	v.Class(fmt.Sprintf("callers:%d", len(c.Callers)))
 	if out.TimedOut {
 		v.Failf("no-termination", "the case did not end within 48 h of virtual time: %s", render(c, out))
@@ -132,6 +180,17 @@ func judgeCaller(c Case, i int, out Outcome, single bool, v *harness.Verdict) {
 				continue
 			}
 			v.Class("answer:" + evLabel(e))
+			if e.Kind == "ok" && e.BodyForm != 0 {
+				v.Class(fmt.Sprintf("ok-body-form:%d", e.BodyForm))
+			}
+			if (e.Kind == "ok" || e.Kind == "status") && e.BodySize > 0 {
+				switch {
+				case e.BodySize <= 1<<20:
+					v.Class("body-size:<=1MiB")
+				default:
+					v.Class("body-size:>1MiB")
+				}
+			}
 			if e.Kind == "neterr" && e.NetErr != 0 {
 				v.Class("answer:neterr-wrapping-context-error")
 			}
@@ -160,6 +219,8 @@ func judgeCaller(c Case, i int, out Outcome, single bool, v *harness.Verdict) {
 	if cc.Ctx == "cancel" && cc.EndMs < 0 {
 		v.Class("ctx:cancelled-before-call")
 	}
+	// the fixed jitter, plus the time the harness's own slow log sink takes per message
+	slack := jitter + time.Duration(c.LogDelayMs)*time.Millisecond
 	hasEnd := cc.Ctx != "none"
 	var tEnd time.Duration
 	if hasEnd {
@@ -197,16 +258,16 @@ func judgeCaller(c Case, i int, out Outcome, single bool, v *harness.Verdict) {
 		}
 		if single {
 			if is408 {
-				if gap > jitter {
-					v.Failf("delay-after-408", "%s: attempt %d answered 408 at %v, next attempt only at %v (gap %v > %v)", who, k, a.End, next.Start, gap, jitter)
+				if gap > slack {
+					v.Failf("delay-after-408", "%s: attempt %d answered 408 at %v, next attempt only at %v (gap %v > %v)", who, k, a.End, next.Start, gap, slack)
 				}
 			} else {
 				allowed := capWait
 				if kinds[k] == "retry" && a.Demand && a.NotBefore-a.End > allowed {
 					allowed = a.NotBefore - a.End
 				}
-				if gap > allowed+jitter {
-					v.Failf("wait-exceeds-cap", "%s: attempt %d (%s) ended at %v, next attempt at %v: gap %v > %v + %v", who, k, evLabel(e), a.End, next.Start, gap, allowed, jitter)
+				if gap > allowed+slack {
+					v.Failf("wait-exceeds-cap", "%s: attempt %d (%s) ended at %v, next attempt at %v: gap %v > %v + %v", who, k, evLabel(e), a.End, next.Start, gap, allowed, slack)
 				}
 				if !(kinds[k] == "retry" && a.Demand) && gap >= capWait {
 					v.Class("reached-128s-cap")
@@ -232,8 +293,8 @@ func judgeCaller(c Case, i int, out Outcome, single bool, v *harness.Verdict) {
 					}
 				}
 			}
-			if next.Start > upper+jitter {
-				v.Failf("wait-exceeds-cap-shared", "%s: attempt %d (%s) ended at %v, next attempt at %v, but nothing imposed on the client justifies waiting beyond %v + %v", who, k, evLabel(e), a.End, next.Start, upper, jitter)
+			if next.Start > upper+slack {
+				v.Failf("wait-exceeds-cap-shared", "%s: attempt %d (%s) ended at %v, next attempt at %v, but nothing imposed on the client justifies waiting beyond %v + %v", who, k, evLabel(e), a.End, next.Start, upper, slack)
 			}
 		}
 	}
